@@ -36,6 +36,7 @@ type Obligation struct {
 	smtPath string
 	CrossSolver string
 	rawSMT      string
+	GuardCover  string
 }
 
 type envEntry struct {
